@@ -58,7 +58,7 @@ func (p *BinaryProtocol) SkipAllElementsByType(fieldNumber proto.FieldNumber, is
 			return -1, err
 		}
 		start := p.Read
-		if bytelen < 0 || start+int(bytelen) > len(p.Buf) {
+		if bytelen < 0 || int(bytelen) > len(p.Buf)-start {
 			return -1, errDecodeField
 		}
 		for p.Read < start+int(bytelen) {
